@@ -216,8 +216,8 @@ pub fn gen_cfg(rng: &mut Rng, prop: u32, kind_fixed: Option<Kind>) -> RunCfg {
         weights[Fam::Extend as usize] *= 2;
     }
     let (universe, len) = if light() { (universe.min(8), len.min(7)) } else { (universe, len) };
-    // thorough tier: one run in ten is an order of magnitude longer on a larger universe
-    let (universe, len) = if thorough() && !light() && hasher != HasherKind::Collide && rng.chance(1, 10) { (universe.max(200 + rng.below(1300) as u32), 200 + rng.usize(500)) } else { (universe, len) };
+    // thorough tier: one run in 25 is an order of magnitude longer on a larger universe
+    let (universe, len) = if thorough() && !light() && hasher != HasherKind::Collide && rng.chance(1, 25) { (universe.max(200 + rng.below(1300) as u32), 200 + rng.usize(500)) } else { (universe, len) };
     RunCfg { kind, hasher, ctor, universe, palette, len, weights }
 }
 
